@@ -70,3 +70,34 @@ Definition check_idshort_case (c : list (Z * nat) * Z) : bool :=
 
 Definition check_isalpha_case (c : Z * bool) : bool :=
   Bool.eqb (ascii_letter_b (fst c)) (snd c).
+
+(* ---- ConstrainedList / Entity / AssetInformation state machine (tie C) ------------------- *)
+From Basyx Require Import model.ConstraintsModel.
+
+Definition enc_out (v : out) : list Z :=
+  match v with
+  | OK => [0]
+  | OVal x => [0; Z.of_nat x]
+  | Err e => [enc_err (Some e)]
+  end.
+Definition enc_g (g : garg) : Z := match g with GNone => 0 | GOk n => 1 + Z.of_nat n | GBad => -1 end.
+Definition observe_st (s : st) (v : out) : list (list Z) :=
+  [enc_out v; [zb (etype s); enc_g (gaid s)]; map Z.of_nat (items s)].
+
+Fixpoint ltrace (o : owner) (s : st) (ops : list op) : list (list (list Z)) :=
+  match ops with
+  | [] => []
+  | p :: r => let '(s', v) := step o s p in observe_st s' v :: ltrace o s' r
+  end.
+
+Definition list_case_trace (o : owner) (t : bool) (g : garg) (xs : list nat) (ops : list op)
+  : list (list (list Z)) :=
+  match ctor o t g xs with
+  | (Some s, _) => observe_st s OK :: ltrace o s ops
+  | (None, Some e) => [[[enc_err (Some e)]]]
+  | (None, None) => [[[-99]]]
+  end.
+
+Definition check_list_case (c : owner * bool * garg * list nat * list op * Z) : bool :=
+  let '(o, t, g, xs, ops, expected) := c in
+  Z.eqb (hash_zlll 0 (list_case_trace o t g xs ops)) expected.
